@@ -78,12 +78,17 @@ type Op struct {
 	// R > 0 (writeload/writeat): the tree object the image is loaded into is not a fresh one - it already holds R records of
 	// another tree (an object that is re-used)
 	R int `json:"r,omitempty"`
+	// F (writeload): the image is written into another, new file (its allocator knows nothing of the addresses the tree was
+	// loaded from); the history continues there
+	F bool `json:"f,omitempty"`
 }
 
 type Case struct {
 	NodeSize   uint32 `json:"node_size"`
 	OffsetSize uint8  `json:"offset_size"`
 	Collide    bool   `json:"collide"` // name table includes constructed colliding pairs
+	// Base: file address at which the first allocation of the (in-memory) file lands (0 = 64)
+	Base uint64 `json:"base,omitempty"`
 	Ops        []Op   `json:"ops"`
 }
 
@@ -99,12 +104,20 @@ func (c Case) names() []string {
 	return append(out, p.plain[:40]...)
 }
 
+func baseOf(c Case) uint64 {
+	if c.Base == 0 || c.Base > 1<<26 {
+		return 64
+	}
+	return c.Base
+}
+
 func maxRecords(nodeSize uint32) int { return int((nodeSize - 10) / 11) }
 
 func genCase(t *rapid.T) Case {
 	c := Case{
 		NodeSize:   rapid.SampledFrom([]uint32{64, 128, 512, 4096}).Draw(t, "nodeSize"),
 		OffsetSize: rapid.SampledFrom([]uint8{8, 8, 8, 4}).Draw(t, "offsetSize"),
+		Base:       rapid.SampledFrom([]uint64{0, 0, 0, 65000, 70000, 1 << 18, 1 << 20}).Draw(t, "base"),
 		Collide:    rapid.IntRange(0, 19).Draw(t, "collide") == 0,
 	}
 	capacity := maxRecords(c.NodeSize)
@@ -141,6 +154,9 @@ func genCase(t *rapid.T) Case {
 			op.N = rapid.SampledFrom([]int{0, 0, 64, 128, 512, 4096}).Draw(t, "loadInto")
 			if rapid.IntRange(0, 2).Draw(t, "reuse") == 0 {
 				op.R = rapid.IntRange(1, 5).Draw(t, "reuseRecords")
+			}
+			if k == "writeload" && rapid.IntRange(0, 3).Draw(t, "freshFile") == 0 {
+				op.F = true
 			}
 		case "fill":
 			op.N = rapid.IntRange(1, capacity+3).Draw(t, "count")
@@ -456,6 +472,9 @@ func (s *state) writeAndReload(step int, op Op, inPlace bool) *vt.Verdict {
 			return bad("WriteAt: %v", err)
 		}
 	} else {
+		if op.F {
+			s.file = memf.New(48) // another file: nothing of the old one is there
+		}
 		a, err := s.bt.WriteToFile(s.file, s.file, s.sb)
 		if err != nil {
 			return bad("WriteToFile: %v", err)
@@ -514,7 +533,7 @@ func (s *state) writeAndReload(step int, op Op, inPlace bool) *vt.Verdict {
 func run(c Case) vt.Verdict {
 	names := c.names()
 	s := &state{c: c, names: names, bt: structures.NewWritableBTreeV2(c.NodeSize), model: map[string]uint64{}, hashes: map[uint32]int{},
-		sb: &core.Superblock{Version: 2, OffsetSize: c.OffsetSize, LengthSize: 8, Endianness: binary.LittleEndian}, file: memf.New(64)}
+		sb: &core.Superblock{Version: 2, OffsetSize: c.OffsetSize, LengthSize: 8, Endianness: binary.LittleEndian}, file: memf.New(baseOf(c))}
 	s.file.Data = make([]byte, 64)
 	defer s.stopBackground()
 	capacity := maxRecords(c.NodeSize)
